@@ -21,11 +21,14 @@ ALL_KINDS = list(KIND_DECL)
 
 def render(layout, kinds=None, indices=None):
     """layout: list of (group, name) in declaration order"""
-    out = ['struct SU { a: vec4<f32> }']
+    out = ['struct SU { a: vec4<f32> }', 'var<private> unbound_first: f32;']
     for i, (g, n) in enumerate(layout):
+        if i == 1:
+            out.append('var<workgroup> unbound_mid: array<u32, 4>;')      # a variable without @group/@binding between resource variables
         k = (kinds or {}).get(n, ALL_KINDS[i % len(ALL_KINDS)])
         b = (indices or {}).get(n, i)
         out.append(f'@group({g}) @binding({b}u) ' + KIND_DECL[k].format(n=n))
+    out.append('var<push_constant> unbound_last: vec4<f32>;')
     out.append('@compute @workgroup_size(1) fn main() {}')
     return '\n'.join(out) + '\n'
 
